@@ -265,7 +265,7 @@ def evidence(tier, seed, results, canaries):
             "exhaustive": True,
             "explanation": "get_clone_table and the real write_map_results (in-memory trace, real files in a temporary directory read back) are run on "
                            "every tree within the bound; on every path: each (mutation, sample) exactly once, clone ids are Newick nodes or -1, "
-                           "cluster mates share their clone, ccf / prevalence are the clone's (in [0,1], parent >= children, prevalence = difference) "
+                           "cluster mates share their clone, ccf / prevalence equal get_map_node_ccfs_and_clonal_prev_dicts (C10's subject) for that clone at the input position of that sample - samples are given in non-sorted order - (in [0,1], parent >= children, prevalence = difference) "
                            "or -1 for outliers, no exception. The structural columns have no numeric input; z3 only decides which CCF paths exist.",
             "functions_encoded": funcs, "obligations": obligations, "discharged": discharged,
             "paths": agg["paths"], "queries": agg["queries"], "solver_s": agg["solver_s"], "canaries": canaries,
